@@ -464,9 +464,17 @@ def g_qname(rng):
 
 
 def g_uri(rng):
+    if rng.random() < 0.5:     # assembled from components: scheme, authority (user, host forms, port), path, query, fragment
+        scheme = rng.choice(['', '', 'http:', 'urn:', 'a+b-c.d:', '1a:', ':', 'file:'])
+        auth = rng.choice(['', '', '//example.com', '//u:p@h', '//[::1]', '//[::1', '//h:80', '//h:', '//h:99999', '//h:8x',
+                           '//[v1.a]', '//1.2.3.4', '//\u00e9.example', '//h]', '//[zz]'])
+        path = rng.choice(['', '/', '/a/b', 'a', ':a', '/:a', 'a:b', '../x', '/a b', '/%41', '/%4', '/%zz', '/%', '/100%25', '/%e9%E9'])
+        query = rng.choice(['', '', '?q=1', '?a=%20&b', '?%', '?#'])
+        frag = rng.choice(['', '', '#f', '#', '#a#b', '##', '#%41', '#%4g'])
+        return scheme + auth + path + query + frag
     return rng.choice(['http://example.com/a?b=c#d', 'urn:x:y', '', 'a b', '%20', '%zz', 'http://[::1]/', 'http://[::1',
                        '../x', '#f', 'mailto:a@b', 'http://a/b c', ':', '1:', 'http://é.example/', 'a\\b', '%',
-                       'file:///c|/x', '\\\\host\\share'])
+                       'file:///c|/x', '\\\\host\\share', '%41%', '%4', 'a%٤١', '%\uff14\uff11', '#a#'])
 
 
 def g_text(rng):
@@ -554,6 +562,18 @@ CORPUS = [
 ]
 
 
+def urlparse_oracle(s: str):
+    """the standard library's part of AnyURI.validate: (1 if urlparse / .port raised ValueError else 0, the path component)"""
+    from urllib.parse import urlparse
+    v = xsd_collapse(s)
+    try:
+        parts = urlparse(v)
+        _ = parts.port
+        return 0, parts.path
+    except ValueError:
+        return 1, ''
+
+
 def name_boundary_cases():
     """every border of the XML 1.0 (5th ed.) NameStartChar / NameChar ranges (first and last code point of each range and the
     neighbours outside), in first and in later position, for the four pattern families — a deterministic sweep"""
@@ -622,6 +642,9 @@ def lexical_cases(run: Run, impl: Impl, cases: list) -> None:
             lines.append(f'op=name K={NAME_TYPES[t]} S={cps(s)}')
         elif t in STR_TYPES:
             lines.append(f'op=str K={t} S={cps(s)}')
+        elif t == 'anyURI':
+            fails_, path_ = urlparse_oracle(s)
+            lines.append(f'op=uri F={fails_} P={cps(path_)} S={cps(s)}')
         elif t in DATE_TYPES:
             lines.append(f'op=date K={t} V=11 S={cps(s)}')
             if t != 'dateTimeStamp':
@@ -654,6 +677,8 @@ def lexical_cases(run: Run, impl: Impl, cases: list) -> None:
                 name_ans = parse(next(answers))
             if t in STR_TYPES:
                 str_ans = parse(next(answers))
+            if t == 'anyURI':
+                uri_ans = parse(next(answers))
             if t in DATE_TYPES:
                 date_ans = {'11': parse(next(answers))}
                 if t != 'dateTimeStamp':
@@ -773,6 +798,21 @@ def lexical_cases(run: Run, impl: Impl, cases: list) -> None:
                 elif got_n != sp:
                     run.disagree(Disagreement(case, impl=got_n, model=mm, spec=sp, what='name-vs-xml-production',
                                               site=f'datatypes {t}.pattern', tags=tags_n))
+            if t == 'anyURI':
+                mm, _, sp, _ = uri_ans
+                got_u = ('ok:' + cps(str(val))) if kind == 'ok' else val
+                st.count('lex:anyURI-model:' + ('ok' if kind == 'ok' else str(val)))
+                # interim finding F10y (repair on fix-c10-5): `\\d` in Patterns.wrong_escape also takes decimal digits of other
+                # scripts; trigger = some '%' is followed by two characters of [a-fA-F\\d] that are not both ASCII hex digits
+                import re as _re
+                tags_y = ['F10y'] if _re.search(r'%(?=[a-fA-F\d]{2})(?![a-fA-F0-9]{2})', xsd_collapse(s)) else []
+                want_u = 'ok:' + cps(xsd_collapse(s)) + ':hash=1:pct=1'
+                if kind == 'ok' and (sp != want_u or got_u != sp.split(':hash=')[0]):
+                    # what an accepted value must look like (EPV.C10.anyURI_accepted)
+                    run.disagree(Disagreement(case, impl=got_u, model=mm, spec=sp, what='anyURI-accepted-shape',
+                                              site='uri.py AnyURI.validate', tags=tags_y))
+                elif got_u != mm:
+                    run.disagree(Disagreement(case, impl=got_u, model=mm, what='anyURI-model', site='uri.py AnyURI.validate'))
             if t in STR_TYPES:
                 mm, _, sp, _ = str_ans
                 if kind == 'ok':
@@ -2072,10 +2112,10 @@ def body(run: Run) -> int:
         'repr(float) (finite values of doubles are compared with CPython float() as reference, not with a Lean model)',
         'codecs hex/base64 of CPython (compared with the Lean codecs on every run)']
     run.assumptions += [
-        'xs:anyURI has no Lean recogniser (validation rests on urllib.parse.urlparse of the standard library): it is '
-        'compared path-against-path only; every other constructible atomic type has a Lean model and an XSD lexical specification',
+        'xs:anyURI: urllib.parse.urlparse (does it raise, which path does it return) is an oracle of the Lean model '
+        'Lex.anyUriCtor; the model covers the library\'s own checks, XSD 1.1 makes every string an anyURI literal',
         'xs:anyAtomicType, xs:NOTATION, xs:error have no usable constructor and are excluded']
-    run.prove(['EPV.Props.C10', 'EPV.Props.C10Tables', 'EPV.Props.C10Tz', 'EPV.Props.C10Dur', 'EPV.Props.C10Greg', 'EPV.Props.C10Names', 'EPV.Props.C10Date', 'EPV.Props.C10Str'], ['EPV.Spec.XSDLexical', 'EPV.Model.Lexical'])
+    run.prove(['EPV.Props.C10', 'EPV.Props.C10Tables', 'EPV.Props.C10Tz', 'EPV.Props.C10Dur', 'EPV.Props.C10Greg', 'EPV.Props.C10Names', 'EPV.Props.C10Date', 'EPV.Props.C10Str', 'EPV.Props.C10Uri'], ['EPV.Spec.XSDLexical', 'EPV.Model.Lexical'])
     try:
         impl = Impl()
         rng = run.rng
